@@ -156,7 +156,7 @@ def prepare_codec_cmp(uni, op):
             return {"basic": a, "fmt": b}
         return thunk, (lambda: U.same(U.canon(obj), before))
     data = U.encode_input("decode_" + fmt, op["inp"])
-    doc = copy.deepcopy(op["inp"])
+    doc = U.encode_input("decode_basic", op["inp"])
 
     def thunk():
         a = side(lambda: U.canon(B.BasicDecoder(shape, default_dialect=dd).decode(doc)))
@@ -531,7 +531,7 @@ def prepare_agree(uni, op):
             O = getattr(mod, op["outer_cls"])
             try:
                 res["outer"] = ["ok", U.canon(getattr(
-                    O.from_dict(copy.deepcopy(op["outer_inp"])), op["outer_field"]))]
+                    O.from_dict(U.encode_input("from_dict", op["outer_inp"])), op["outer_field"]))]
             except Exception as e:  # noqa
                 # only a failure of *this* field says something about this type
                 if getattr(e, "field_name", None) == op["outer_field"]:
